@@ -9,25 +9,28 @@ import (
 
 // TestC19Matrix — systematic part: every name-carrying operation x every request variant x every way
 // of placing a name into a URL path x `../` chains of every length 1..maxChain x the typical targets
-// (an existing file with the extension the operation appends, an existing file without it, a new
-// file). rapid may miss one (operation, chain length, encoding) combination in a quick run; this
+// (existing files with and without the extension the operation appends, a new file), each as a
+// plain chain and behind a harmless first element (x/../..). rapid may miss one (operation, chain length, encoding) combination in a quick run; this
 // enumeration does not. One case = one (operation, variant, encoding) with all chain lengths and
 // targets in sequence against one worker; the oracle is the same as in TestC19 (checkC19).
 
 func matrixTails() []string {
-	t := []string{"secret.csv", "pwn-target.json", "pwnnew"}
+	// "secret" matters for operations that append an extension: secret.csv and secret.json exist
+	t := []string{"secret.csv", "pwn-target.json", "pwnnew", "secret"}
 	if pt.Thorough() {
-		t = append(t, "secret", "secret.json", "pwn-target.csv", "pwnnew.csv", "pwnnew.json", "keep", "sib/secret.csv", "keep/")
+		t = append(t, "secret.json", "pwn-target.csv", "pwnnew.csv", "pwnnew.json", "keep", "sib/secret.csv", "keep/")
 	}
 	return t
 }
 
 // forms of one climbing name with n ".." elements
 func matrixForms(n int, tail string) []nameSpec {
-	out := []nameSpec{mkName("chain", strings.Repeat("../", n)+tail)}
+	out := []nameSpec{
+		mkName("chain", strings.Repeat("../", n)+tail),
+		mkName("midchain", "x/"+strings.Repeat("../", n+1)+tail), // passes a check that only looks at the prefix
+	}
 	if pt.Thorough() {
 		out = append(out,
-			mkName("midchain", "x/"+strings.Repeat("../", n+1)+tail),
 			mkName("chain_enc", strings.Repeat("..%2f", n)+tail),
 			mkName("chain_enc", strings.Repeat("%2e%2e%2f", n)+tail),
 			mkName("nul", strings.Repeat("../", n)+tail+"\x00"),
@@ -50,8 +53,32 @@ func matrixCases() []*c19Case {
 		for v := 0; v < spec.NV; v++ {
 			for _, enc := range encs {
 				cs := &c19Case{}
-				// a harmless name first: shows that the request template itself is accepted
-				cs.Steps = append(cs.Steps, step{Op: spec.Name, Name: mkName("benign", "c19name"), Enc: enc, V: v})
+				// a harmless name first, after creating what it refers to: shows that the request template
+				// itself is accepted (class benign_ok:<op>), i.e. a hostile name is the only reason to fail
+				benign := "c19name"
+				setup := func(op, name string) {
+					e := "-"
+					if opByName[op].Carrier == "path" {
+						e = "raw"
+					}
+					cs.Steps = append(cs.Steps, step{Op: op, Name: mkName("benign", name), Enc: e})
+				}
+				switch spec.Name {
+				case "lookup_get", "lookup_delete":
+					benign = "c19name.csv"
+					setup("lookup_upload", benign)
+				case "usq_get", "usq_delete":
+					setup("usq_save", benign)
+				case "dash_get", "dash_update", "dash_delete", "dash_fav":
+					setup("dash_create", "c19dashsetup")
+					benign = "{DASHID}"
+				case "folder_get", "folder_put", "folder_delete", "folder_count":
+					setup("folder_create", "c19foldersetup")
+					benign = "{FOLDERID}"
+				case "head_index", "delete_index", "es_search", "es_getdoc", "alias_post", "alias_put", "alias_get":
+					setup("put_index", benign)
+				}
+				cs.Steps = append(cs.Steps, step{Op: spec.Name, Name: mkName("benign", benign), Enc: enc, V: v})
 				for n := 1; n <= maxChain; n++ {
 					for _, tail := range matrixTails() {
 						for _, nm := range matrixForms(n, tail) {
